@@ -218,6 +218,78 @@ func (e *Engine) feasible(c *term.Term) bool {
 	return r != smt.Unsat
 }
 
+// enumerateFeasible finds the feasible alternatives of a many-way fork with
+// (#feasible + 1) solver calls: ask for a model of pc ∧ (one of the remaining
+// alternatives), see which alternative the model satisfies, exclude it, repeat.
+func (e *Engine) enumerateFeasible(alts []*term.Term, cand []int) []int {
+	remaining := append([]int{}, cand...)
+	var feas []int
+	take := func(k int) {
+		feas = append(feas, remaining[k])
+		remaining = append(remaining[:k], remaining[k+1:]...)
+	}
+	for len(remaining) > 0 {
+		hit := -1
+		for i := len(e.pool) - 1; i >= 0 && hit < 0; i-- {
+			for k, a := range remaining {
+				if e.modelSatisfies(e.pool[i], alts[a]) {
+					hit = k
+					e.PoolHits++
+					break
+				}
+			}
+		}
+		if hit >= 0 {
+			take(hit)
+			continue
+		}
+		var rs []*term.Term
+		for _, a := range remaining {
+			rs = append(rs, alts[a])
+		}
+		disj := term.Or(rs...)
+		if e.pipe.Logic != "" && term.HasFP(disj) {
+			e.restartPipe("")
+		}
+		e.sync()
+		e.pipe.Push()
+		e.pipe.Assert(disj)
+		r := e.pipe.Check(e.Opt.FeasTimeout)
+		var ev *term.Evaluator
+		if r == smt.Sat {
+			if m, err := e.pipe.Model(e.vars()); err == nil {
+				e.addModel(m)
+				ev = e.pool[len(e.pool)-1]
+			}
+		}
+		e.pipe.Pop()
+		if r == smt.Unsat {
+			break
+		}
+		found := -1
+		if ev != nil {
+			for k, a := range remaining {
+				if v, ok := ev.Eval(alts[a]); ok && v.U != 0 {
+					found = k
+					break
+				}
+			}
+		}
+		if found < 0 {
+			// unknown, or a model we cannot evaluate: decide the rest one by one
+			for _, a := range remaining {
+				if e.feasible(alts[a]) {
+					feas = append(feas, a)
+				}
+			}
+			break
+		}
+		take(found)
+	}
+	sort.Ints(feas)
+	return feas
+}
+
 func (e *Engine) addModel(m map[string]smt.ModelVal) {
 	vars := map[string]term.Val{}
 	for name, mv := range m {
@@ -282,13 +354,17 @@ func (e *Engine) Fork(alts []*term.Term, tag string) int {
 	}
 	// frontier
 	var feas []int
-	for j, i := range cand {
-		if j == len(cand)-1 && len(feas) == 0 {
-			feas = append(feas, i) // pc is feasible and all others are not
-			break
-		}
-		if e.feasible(alts[i]) {
-			feas = append(feas, i)
+	if len(cand) > 3 {
+		feas = e.enumerateFeasible(alts, cand)
+	} else {
+		for j, i := range cand {
+			if j == len(cand)-1 && len(feas) == 0 {
+				feas = append(feas, i) // pc is feasible and all others are not
+				break
+			}
+			if e.feasible(alts[i]) {
+				feas = append(feas, i)
+			}
 		}
 	}
 	if len(feas) == 0 {
